@@ -519,6 +519,7 @@ func (mr *machineRun) run() {
 		}
 	}
 	mr.runInit()
+	mr.runRequires()
 }
 
 func (mr *machineRun) newExec() (*Exec, *State) {
@@ -1118,3 +1119,98 @@ func (e *Env) evalAny(expr string) (SVal, error) {
 }
 
 var _ = ast.NewIdent
+
+// runRequires: the operator's `requires` clauses are preconditions of the subscribe function. They are assumed in
+// every callback, so they must be established where the observable is constructed: the constructor function (and the
+// func(source) closure it returns) is executed for all parameters, and at the observable-constructor call the
+// clauses are proved from the path condition (argument checks such as `if count == 0 { return Empty() }`).
+// The cells they mention may not be written by the subscription (they would not be stable).
+func (mr *machineRun) runRequires() {
+	if len(mr.sp.Requires) == 0 {
+		return
+	}
+	idRe := regexp.MustCompile(`[A-Za-z_][A-Za-z0-9_]*`)
+	written := cellsWrittenBy(mr.site.Closures)
+	for _, c := range mr.sp.Requires {
+		for _, id := range idRe.FindAllString(c.Text, -1) {
+			if written[id] {
+				mr.u.Errs = append(mr.u.Errs, fmt.Sprintf("%s:%d: requires mentions %s, which the subscription writes", shortFile(c.File), c.Line, id))
+			}
+		}
+	}
+	x, st := mr.newExec()
+	x.H = mr.hooks(x)
+	h := x.H
+	byName := map[string][]Obl{}
+	notes := map[string]string{}
+	reached := 0
+	var pcs [][]string
+	ctorPos := mr.site.CtorCall.Pos()
+	h.OnEvent = func(x *Exec, st *State, ev *Event) {
+		if ev.Pos != ctorPos || !strings.HasPrefix(ev.Name, "call:") {
+			return
+		}
+		reached++
+		env := mr.env(x, st, map[string]SVal{})
+		var gs []string
+		for _, c := range mr.sp.Requires {
+			g, err := env.evalBool(c.Text)
+			if err != nil {
+				mr.u.Errs = append(mr.u.Errs, fmt.Sprintf("%s:%d: requires at construction: %v", shortFile(c.File), c.Line, err))
+				g = "false"
+			}
+			gs = append(gs, g)
+		}
+		x.obl(st, "requires-established", and(gs...), "the operator's requires clauses hold whenever the observable is constructed (the constructor's argument checks establish them)", ev.Pos)
+		pcs = append(pcs, append([]string{}, st.PC...))
+	}
+	h.Callee = func(fn *ssa.Function) *CalleeSpec { return nil }
+	x.H = h
+	var params []SVal
+	for _, p := range mr.top.Params {
+		params = append(params, x.symbolic(st, p.Name(), p.Type()))
+	}
+	collect := func(s2 *State) {
+		for _, o := range s2.Obls {
+			byName[o.Name] = append(byName[o.Name], o)
+			if _, ok := notes[o.Name]; !ok {
+				notes[o.Name] = o.Note
+			}
+		}
+	}
+	inTree := func(root, f *ssa.Function) bool {
+		for _, g := range closureTree(root) {
+			if g == f {
+				return true
+			}
+		}
+		return false
+	}
+	x.run(st, mr.top, params, nil, func(s2 *State, ex Exit) {
+		if s2.Err != "" {
+			mr.u.Errs = append(mr.u.Errs, fmt.Sprintf("%s/construct: %s", mr.sp.Name, s2.Err))
+			return
+		}
+		if ex.Kind == ExitReturn && len(ex.Results) == 1 && ex.Results[0].K == KClosure && inTree(ex.Results[0].Fn, mr.site.CtorCall.Parent()) {
+			cl := ex.Results[0]
+			var ps []SVal
+			for _, p := range cl.Fn.Params {
+				ps = append(ps, x.symbolic(s2, p.Name(), p.Type()))
+			}
+			x.run(s2, cl.Fn, ps, cl.Binds, func(s3 *State, ex3 Exit) {
+				if s3.Err != "" {
+					mr.u.Errs = append(mr.u.Errs, fmt.Sprintf("%s/construct: %s", mr.sp.Name, s3.Err))
+					return
+				}
+				collect(s3)
+			})
+			return
+		}
+		collect(s2)
+	})
+	if reached == 0 {
+		mr.u.Errs = append(mr.u.Errs, fmt.Sprintf("%s: the observable constructor call was not reached from the operator's entry; requires cannot be established", mr.sp.Name))
+	}
+	only := map[string][]Obl{"requires-established": byName["requires-established"]}
+	mr.emit(x, "construct", only, notes, pcs, x.pos(mr.top.Pos()))
+}
